@@ -206,6 +206,38 @@ def run(c) -> CaseResult:
     return res
 
 
+# ------------------------------------------------------------------ many instances of ONE model class in one process
+
+
+@st.composite
+def repeat_cases(draw, tier):
+    return dict(prog=draw(dsl.unit_programs(max_ops=6)), seed=draw(st.integers(0, 10**6)), n=draw(st.sampled_from([10, 12])))
+
+
+def run_repeat(c) -> CaseResult:
+    res = CaseResult()
+    prog = c["prog"]
+    cls = dsl.build_class(prog)
+    for k in range(c["n"]):
+        m = dsl.build_module(prog, c["seed"] + k, cls=cls)
+        inputs = dsl.make_inputs(prog, c["seed"] + k)
+        try:
+            um = unit_scale(m)
+            fl = prep(inputs)
+            y = um(**fl)
+        except Exception as e:  # noqa: BLE001
+            res.fail(exc_bucket("C16.repeat.raises", e)[:300], f"instance #{k + 1}: {type(e).__name__}: {str(e)[:200]}")
+            return res
+        yr = dsl.evaluate(prog, dsl.named_tensors(um), prep(inputs), dsl.Unit())
+        if not close(y.detach(), yr.detach()):
+            res.fail("C16.repeat.value", f"instance #{k + 1} of the same model class: unit_scale(module) returned {y.item():.7g}, hand conversion {yr.item():.7g} "
+                     f"(earlier instances agreed)\n{cls._verif_source}")
+            return res
+    res.nontrivial = True
+    res.labels.append("same-class-x%d" % c["n"])
+    return res
+
+
 # ------------------------------------------------------------------ user replacements take precedence
 
 
@@ -267,6 +299,7 @@ def run_replace(c) -> CaseResult:
 CHECK = Check(
     id="C16",
     parts=[Part("programs", run, strategy=cases, budget={"quick": 200, "thorough": 5000}),
+           Part("repeat", run_repeat, strategy=repeat_cases, budget={"quick": 8, "thorough": 80}),
            Part("replace", run_replace, strategy=replace_cases, budget={"quick": 12, "thorough": 100})],
     rule=("programs: Hypothesis-generated modules (rendered to source, exec'd, traced by the real TorchDynamo path of unit_scale): chains / "
           "DAGs of 1-16 ops over linear (positional / omitted / keyword bias, nn.Linear), matmul, gelu, silu, softmax, dropout, layer_norm, "
@@ -274,7 +307,7 @@ CHECK = Check(
           "unmapped ops (tanh, relu, sin, mul, reshape, slicing, cat), adds written a+b / a+=b / torch.add / tensor+scalar, 0-4 well-nested "
           "residual blocks whose skip is an input, a residual output or a plain sum. Oracle: a reference interpreter applying the User-Guide "
           "recipe on the DSL's own data flow with parameters copied from the transformed module; outputs and all gradients (rtol 2e-5); "
-          "original untouched; Linear/Embedding weights std 1, biases 0; node multiset of the rewritten FX graph. replace: user replacement "
+          "original untouched; Linear/Embedding weights std 1, biases 0; node multiset of the rewritten FX graph. repeat: 10-12 instances of one generated model class unit-scaled in one process. replace: user replacement "
           "of a built-in mapped function and of a custom function. Non-trivial = program with >= 1 addition."),
     assumptions=["TorchDynamo capture of the generated constructs is PyTorch's behaviour (trusted)", "float32, rtol 2e-5 (observed: bit-equal)",
                  "arguments whose positional slot differs between torch and U functions are spelled by keyword (as torch.nn modules do)"],
